@@ -415,6 +415,8 @@ def run(chk) -> None:
 
 
 def replay(chk, case) -> None:
+    case = dict(case)
+    case["init"] = [[tuple(r) for r in t] for t in case["init"]]
     real = _real_case(case)
     reply = common.batch([_line(case)])[0]
     _check(chk, case, real, reply)
